@@ -1,10 +1,112 @@
-(* C29 — property theorems only. *)
+(* C29 — property theorems only.  Each is closed by `exact <lemma>` and followed by Print Assumptions.
+
+   Reading guide: Model.v = the conversion code (conv_np_v, two variants of the policyTypes inference);
+   Spec.v = Kubernetes NetworkPolicy semantics (k8s_allows) and the Calico semantics of the converted
+   policies (cal_allows), plus the cluster as Calico sees it (cparty_of: pod -> workload endpoint labels,
+   namespace -> profile labels).  np_ok (ProofsMain.v) = Kubernetes API validation/defaulting + selector keys
+   not Calico-reserved. *)
 From Coq Require Import List NArith Bool.
 From Verif.Common Require Import Labels Packet.
-From Verif.C29 Require Import Model Spec Proofs.
+From Verif.C29 Require Import Model Spec ProofsSel ProofsPorts ProofsMain Proofs.
 Import ListNotations.
 Open Scope N_scope.
 
-Theorem c29_sort_dd_same_set : forall x vs, mem_bytes x (sort_dd vs) = mem_bytes x vs.
-Proof. exact mem_sort_dd. Qed.
-Print Assumptions c29_sort_dd_same_set.
+(* MAIN THEOREM.  For every set of NetworkPolicies, every cluster labelling (namespace labels, pods with
+   labels / service accounts / named ports), and every connection (source and destination: pod or external
+   address, IPv4/IPv6; protocol; destination port): the converted Calico policies allow the connection exactly
+   when the Kubernetes semantics do (egress at the source pod AND ingress at the destination pod). *)
+Theorem c29_same_meaning : forall infer nps cl c,
+  forallb (np_ok infer) nps = true ->
+  cal_allows (map (conv_np_v infer) nps) (cparty_of cl (c_src c)) (cparty_of cl (c_dst c)) (c_proto c) (c_dport c)
+  = k8s_allows nps cl c.
+Proof. exact same_meaning. Qed.
+Print Assumptions c29_same_meaning.
+
+(* per direction and per local pod (ingress and egress separately) *)
+Theorem c29_same_meaning_dir : forall infer nps cl dir p c,
+  forallb (np_ok infer) nps = true ->
+  cal_allows_dir (map (conv_np_v infer) nps) dir (cep_of_pod cl p)
+                 (cparty_of cl (c_src c)) (cparty_of cl (c_dst c)) (c_proto c) (c_dport c)
+  = k8s_allows_dir nps cl dir p c.
+Proof. exact same_meaning_dir. Qed.
+Print Assumptions c29_same_meaning_dir.
+
+(* the property statement's form: one policy, the code of the pinned tree *)
+Theorem c29_same_meaning_pinned : forall np cl c,
+  np_ok false np = true ->
+  cal_allows [conv_np np] (cparty_of cl (c_src c)) (cparty_of cl (c_dst c)) (c_proto c) (c_dport c)
+  = k8s_allows [np] cl c.
+Proof. exact (same_meaning_one false). Qed.
+Print Assumptions c29_same_meaning_pinned.
+
+(* selectors: matchLabels / matchExpressions In, NotIn, Exists, DoesNotExist; nil and empty selectors.
+   Pod selectors are evaluated on the labels Felix sees for the pod ... *)
+Theorem c29_selector_conv_pod : forall cl p (s : option lsel),
+  match s with Some s => lsel_ok unreserved_key s = true | None => True end ->
+  match pod_selector s with Some a => eval a (cal_labels cl p) | None => true end
+  = match s with Some s => k8s_sel_matches s (pod_labels p) | None => true end.
+Proof. exact pod_selector_eval. Qed.
+Print Assumptions c29_selector_conv_pod.
+
+(* ... namespace selectors, after the pcns. prefixing and the all() replacement of the update processor, on the
+   same labels, where they see the namespace's labels through the kns.<namespace> profile *)
+Theorem c29_selector_conv_ns : forall cl p (s : lsel) a,
+  lsel_ok ns_key_ok s = true ->
+  ns_selector (Some s) = Some a ->
+  eval (subst_all (prefix_ast PCNS a)) (cal_labels cl p) = k8s_sel_matches s (ns_labels cl (pod_ns p)).
+Proof. exact ns_selector_eval. Qed.
+Print Assumptions c29_selector_conv_ns.
+
+(* parser.PrefixVisitor on ANY selector keeps its meaning when the prefixed labels mirror the original ones *)
+Theorem c29_prefix_visitor : forall pfx a L L',
+  (forall k, lookup (pfx ++ k) L' = lookup k L) -> eval (prefix_ast pfx a) L' = eval a L.
+Proof. exact prefix_ast_eval. Qed.
+Print Assumptions c29_prefix_visitor.
+
+(* SimplifyPorts: for every port list, the merged list accepts exactly the same destination ports (numbers
+   and named ports), and is empty ("all ports") only if the input was *)
+Theorem c29_simplify_ports_same_set : forall dst proto d ports,
+  cports_hit dst proto d (simplify_ports ports) = cports_hit dst proto d ports
+  /\ is_nil (simplify_ports ports) = is_nil ports.
+Proof. exact simplify_ports_both. Qed.
+Print Assumptions c29_simplify_ports_same_set.
+
+(* ipBlock: cidr minus except = Nets / NotNets (addresses masked by the conversion) *)
+Theorem c29_ipblock_except : forall cl ib x,
+  cal_nets_ok [mask_cidr (ib_cidr ib)] (map mask_cidr (ib_except ib)) (cparty_of cl x) = k8s_ipblock_matches ib x.
+Proof. exact ipblock_except. Qed.
+Print Assumptions c29_ipblock_except.
+
+(* one rule per protocol accepts the same (protocol, port) pairs as the Kubernetes port list; an entry without a
+   port widens its protocol to all ports; default protocol TCP; no ports = every protocol and port *)
+Theorem c29_protocol_grouping : forall cl dst proto d ports gs,
+  proto_groups ports = Some gs ->
+  existsb (group_hit (cparty_of cl dst) proto d) gs
+  = is_nil ports || existsb (fun pp => k8s_port_matches pp dst proto d) ports.
+Proof. exact protocol_grouping. Qed.
+Print Assumptions c29_protocol_grouping.
+
+(* converted rules are Allow rules only (so the order of converted policies inside the tier is irrelevant) *)
+Theorem c29_converted_allow_only : forall ingress ns rs cr, In cr (conv_rules ingress ns rs) -> cr_action cr = CAllow.
+Proof. exact conv_rules_allow. Qed.
+Print Assumptions c29_converted_allow_only.
+
+(* The hypotheses beyond API validation are necessary: *)
+(* (1) pinned tree: a policy without policyTypes but with egress rules is converted to an ingress-only policy,
+       Kubernetes restricts egress (witness replayed on the real code: driver case "w1") *)
+Theorem c29_policytypes_absent_refuted :
+  exists np cl c,
+    np_ok true np = true /\
+    k8s_allows [np] cl c = false /\
+    cal_allows [conv_np_v false np] (cparty_of cl (c_src c)) (cparty_of cl (c_dst c)) (c_proto c) (c_dport c) = true.
+Proof. exact policytypes_absent_refuted. Qed.
+Print Assumptions c29_policytypes_absent_refuted.
+
+(* (2) a pod label with the reserved prefix pcns. is dropped by the workload-endpoint processor: a podSelector on it
+       selects the pod in Kubernetes but not in Calico (driver case "w2") *)
+Theorem c29_reserved_label_refuted :
+  exists np cl c,
+    k8s_allows [np] cl c = false /\
+    forall infer, cal_allows [conv_np_v infer np] (cparty_of cl (c_src c)) (cparty_of cl (c_dst c)) (c_proto c) (c_dport c) = true.
+Proof. exact reserved_label_refuted. Qed.
+Print Assumptions c29_reserved_label_refuted.
